@@ -680,7 +680,7 @@ pub fn run(ctx: &Ctx) {
     ctx.enumerate_all("stream", 16, stg.len() as u64, |i| stg[i as usize].clone(), check);
     ctx.exhaustive.store(true, std::sync::atomic::Ordering::Relaxed);
     // generated
-    let per = ctx.tier.scale(150, 20);
+    let per = ctx.tier.scale(1500, 8);
     ctx.search("gen-fill", 16, per * 4, &|| {
         (1usize..=8, proptest::sample::select(vec![8usize, 12, 16, 20, 24]), 32usize..=300, prop_oneof![2 => Just(0usize), 3 => 1usize..=5, 2 => 1usize..=400], 0usize..=6, 0u8..3, any::<bool>(), any::<u64>())
             .prop_map(|(channels, bps, capacity, extra, nb, target, by_bytes, seed)| {
